@@ -346,24 +346,30 @@ def explore(run_once: Callable[[Callable[[Scheduler, list[str]], str | None]], A
     The policy records the decisions; alternatives are pushed as new prefixes.
     """
     stack: list[tuple[list[str], int]] = [([], 0)]   # (prefix of choices, preemptions used in prefix)
-    stats = {"executions": 0, "truncated": 0}
+    stats = {"executions": 0, "truncated": 0, "diverged": 0}
     while stack:
         if stats["executions"] >= max_executions:
             stats["truncated"] = len(stack)
             break
         prefix, used = stack.pop()
         decisions: list[Decision] = []
-        state = {"i": 0, "used": used}
+        state = {"i": 0, "used": used, "div": 0}
 
         def pol(s: Scheduler, en: list[str], prefix: list[str] = prefix, decisions: list[Decision] = decisions,
                 state: dict[str, int] = state) -> str | None:
             i = state["i"]
             state["i"] += 1
             last = s.trace[-1] if s.trace else None
-            if i < len(prefix):
+            if i < len(prefix) and not state["div"]:
                 c = prefix[i]
-                if c not in en:
-                    raise HarnessDeadlock(f"non-deterministic replay: {c} not enabled at step {i} ({en})")
+                if c in en:
+                    decisions.append(Decision(en, c, [], []))
+                    return c
+                # the execution did not reproduce the prefix (should not happen: executions are meant to be
+                # deterministic); finish it with the default policy, push no alternatives from it, count it
+                state["div"] = 1
+            if state["div"]:
+                c = last if last in en else en[0]
                 decisions.append(Decision(en, c, [], []))
                 return c
             if last in en:
@@ -377,6 +383,7 @@ def explore(run_once: Callable[[Callable[[Scheduler, list[str]], str | None]], A
 
         result = run_once(pol)
         stats["executions"] += 1
+        stats["diverged"] += state["div"]
         taken = [d.chosen for d in decisions]
         if on_result is not None and on_result(taken, result):
             break
